@@ -69,6 +69,22 @@ func boolSetter(r *rand.Rand, name, key, class string, f func(...bool)) setterCa
 	}
 }
 
+// c18trimOff: the trim set in force while trimming is disabled. The documentation says "trimmed or not" and names no
+// characters, so the set is not predicted: it is read from the hooked state the first time trimming is found disabled and
+// must be the same ever after (and the default set must come back when trimming is enabled again).
+var c18trimOffSeen interface{}
+
+func c18trimOff() interface{} {
+	if c18trimOffSeen == nil {
+		if snap := mxj.VerifOptionSnapshot(); snap["disableTrimWhiteSpace"] == true {
+			c18trimOffSeen = snap["trimRunes"]
+		} else {
+			return "?"
+		}
+	}
+	return c18trimOffSeen
+}
+
 var c18reservedNames = map[string]string{"textK": "text", "seqK": "seq", "commentK": "comment", "attrK": "attr", "directiveK": "directive", "procinstK": "procinst", "targetK": "target", "instK": "inst"}
 
 func genSetter(r *rand.Rand) setterCall {
@@ -92,15 +108,15 @@ func genSetter(r *rand.Rand) setterCall {
 	case 4:
 		switch r.Intn(3) {
 		case 0:
-			return setterCall{name: "DisableTrimWhiteSpace()", tog: true, apply: func() { mxj.DisableTrimWhiteSpace() }, model: func(s optState) { s["disableTrimWhiteSpace"], s["trimRunes"] = true, "\t\r\b\n" }}
+			return setterCall{name: "DisableTrimWhiteSpace()", tog: true, apply: func() { mxj.DisableTrimWhiteSpace() }, model: func(s optState) { s["disableTrimWhiteSpace"], s["trimRunes"] = true, c18trimOff() }}
 		default:
 			b := r.Intn(2) == 0
 			return setterCall{name: fmt.Sprintf("DisableTrimWhiteSpace(%v)", b), expl: true, apply: func() { mxj.DisableTrimWhiteSpace(b) }, model: func(s optState) {
 				s["disableTrimWhiteSpace"] = b
 				if b {
-					s["trimRunes"] = "\t\r\b\n"
+					s["trimRunes"] = c18trimOff()
 				} else {
-					s["trimRunes"] = "\t\r\b\n "
+					s["trimRunes"] = processStart["trimRunes"]
 				}
 			}}
 		}
@@ -177,8 +193,8 @@ func genSetter(r *rand.Rand) setterCall {
 		}
 	case 20:
 		n := []int{0, -5, 1, 32, 33, 64, 1000}[r.Intn(7)]
-		want := 32
-		if n > 32 {
+		want, _ := processStart["defaultArraySize"].(int) // the minimum is whatever a fresh process starts with (no document states a number)
+		if n > want {
 			want = n
 		}
 		return setterCall{name: fmt.Sprintf("SetArraySize(%d)", n), expl: true, apply: func() {
